@@ -17,9 +17,10 @@ pub enum AnyCase {
     Multi(pipeprops::MultiCase),
     Enum(pipeprops::EnumCase),
     Read(readsim::ReadCase),
+    Enc(readsim::EncCase),
 }
 
-pub const ALL_PROPS: &[&str] = &["C01", "C02", "C03", "C04", "C05", "C06", "C07", "C08", "C09", "C11", "C13", "C14"];
+pub const ALL_PROPS: &[&str] = &["C01", "C02", "C03", "C04", "C05", "C06", "C10", "C07", "C08", "C09", "C11", "C13", "C14"];
 
 pub struct Budget {
     pub quick_runs: u64,
@@ -32,7 +33,7 @@ pub fn budget(prop: &str) -> Budget {
             quick_runs: 4_000,
             thorough_runs: 150_000,
         },
-        "C03" | "C04" => Budget {
+        "C03" | "C04" | "C10" => Budget {
             quick_runs: 4_000,
             thorough_runs: 200_000,
         },
@@ -94,6 +95,7 @@ pub fn gen_case(prop: &str, seed: u64, idx: u64, tier: &str) -> AnyCase {
         "C14" => return AnyCase::Enum(pipeprops::gen_c14(&mut rng)),
         "C03" | "C04" => return AnyCase::Read(readsim::gen_read_case(&mut rng, prop)),
         "C05" => return AnyCase::Read(readsim::gen_c05(&mut rng, idx)),
+        "C10" => return AnyCase::Enc(readsim::gen_c10(&mut rng)),
         _ => {}
     }
     let p = profile_for(prop);
@@ -150,6 +152,7 @@ pub fn run_case(prop: &str, case: &AnyCase) -> RunReport {
         AnyCase::Enum(ec) => pipeprops::run_c14(ec),
         AnyCase::Read(rc) if prop == "C05" => readsim::run_c05(rc),
         AnyCase::Read(rc) => readsim::run_read_case(rc),
+        AnyCase::Enc(ec) => readsim::run_c10(ec),
         AnyCase::Pipe(pc) if prop == "C13" => pipeprops::run_c13(pc),
         AnyCase::Pipe(pc) => {
             let out = pipesim::run_write(pc, false);
@@ -300,6 +303,7 @@ pub fn shrink(case: &AnyCase) -> Vec<AnyCase> {
         AnyCase::Multi(m) => pipeprops::shrink_c11(m).into_iter().map(AnyCase::Multi).collect(),
         AnyCase::Enum(e) => pipeprops::shrink_c14(e).into_iter().map(AnyCase::Enum).collect(),
         AnyCase::Read(r) => readsim::shrink_read(r).into_iter().map(AnyCase::Read).collect(),
+        AnyCase::Enc(e) => readsim::shrink_c10(e).into_iter().map(AnyCase::Enc).collect(),
     }
 }
 
@@ -318,6 +322,6 @@ pub fn explicit_schedule(prop: &str, case: &AnyCase) -> AnyCase {
             }
         }
         AnyCase::Multi(m) => AnyCase::Multi(pipeprops::explicit_c11(m)),
-        AnyCase::Enum(_) | AnyCase::Read(_) => case.clone(),
+        AnyCase::Enum(_) | AnyCase::Read(_) | AnyCase::Enc(_) => case.clone(),
     }
 }
